@@ -14,7 +14,7 @@ func init() {
 		LevelText:   "Structural clauses decided for all paths: each retention pass returns its input when at most one segment exists and never places the last segment among the delete candidates; the walk-backwards passes stop on total > limit, seed the total with the newest segment and delete every remaining older index after the stop (contiguous suffix); age deletes on lastWriteTime < ttl only; passes run in the order age, messages, bytes and only when their limit is positive; all segments are marked deleted before the first file is removed; after a clean without compaction the earliest leader epoch is moved to the new first segment. 'No more than the limits require' as arithmetic over real sizes and times is not decided.",
 		LevelNote:   "Trusted: go/ssa; MessageCount/Position report the real sizes.",
 		DesignRef:   "DESIGN.md §4 C09",
-		Explanation: "R01.8 also (round 8): the recovered last entry is the answer given after the rebuild. R09.7 also: every call of Clean runs a pass; R01.8 (shared) a reopened segment pairs its bookkeeping with the right index entries. R09.8 the cleaned list is swapped in only after a successful pass; R09.9 Segments() and OldestOffset() leave out leading segments a pass has marked deleted (F87); R08.6 (shared) reverse scans recover from deleted segments (F76); R09.6 also: the earliest epoch stays at or before the newest offset (F82). R09.1 newest segment kept, R09.2 limit relations, R09.3 suffix shape, R09.4 order and enablement, R09.5 mark-then-delete, R09.6 earliest epoch follows the swap, R09.7 a stop implies deletion / exact counter tests / early exit / no-limits test / segments rolled during a clean re-attached on every path, R16.8 (shared) retention settings travel from the request to the cleaner under their own names. R15.8 (shared) the retention / segment / cleaner keys reach their Config fields. NOT decided: the arithmetic over real sizes/times; concurrent appends during a clean.",
+		Explanation: "Round 10: R09.5 also: deleteSegments removes the files of every segment it is handed (marked earlier or not); R09.1 also: every successful write moves lastWriteTime to the last entry's timestamp. R01.8 also (round 8): the recovered last entry is the answer given after the rebuild. R09.7 also: every call of Clean runs a pass; R01.8 (shared) a reopened segment pairs its bookkeeping with the right index entries. R09.8 the cleaned list is swapped in only after a successful pass; R09.9 Segments() and OldestOffset() leave out leading segments a pass has marked deleted (F87); R08.6 (shared) reverse scans recover from deleted segments (F76); R09.6 also: the earliest epoch stays at or before the newest offset (F82). R09.1 newest segment kept, R09.2 limit relations, R09.3 suffix shape, R09.4 order and enablement, R09.5 mark-then-delete, R09.6 earliest epoch follows the swap, R09.7 a stop implies deletion / exact counter tests / early exit / no-limits test / segments rolled during a clean re-attached on every path, R16.8 (shared) retention settings travel from the request to the cleaner under their own names. R15.8 (shared) the retention / segment / cleaner keys reach their Config fields. NOT decided: the arithmetic over real sizes/times; concurrent appends during a clean.",
 	})
 }
 
